@@ -302,15 +302,15 @@ Qed.
 
 Example native_example :
   native (EAgg "sum" false [] None
-            (ECall "rate" [EMat (mkVS [mkM 0 MEq 1] 0 0 None None) 300000])).
+            (ECall "rate" [EMat (mkVS [mkM 0 MEq 1] 0 0 None None 1) 300000])).
 Proof. apply plan_ok_iff_native. vm_compute. reflexivity. Qed.
 
 Example fallback_example :
-  new_query true true TVector (ECall "sort" [EVec (mkVS [] 0 0 None None)]) = O_Fallback /\
-  new_query false true TVector (ECall "sort" [EVec (mkVS [] 0 0 None None)]) = O_ErrUnsupported.
+  new_query true true TVector (ECall "sort" [EVec (mkVS [] 0 0 None None 0)]) = O_Fallback /\
+  new_query false true TVector (ECall "sort" [EVec (mkVS [] 0 0 None None 0)]) = O_ErrUnsupported.
 Proof. split; vm_compute; reflexivity. Qed.
 
 Example nested_unsupported_never_native :
   ~ native (EAgg "sum" false [] None (EBin "+" false OneToOne false [] []
-              (EVec (mkVS [] 0 0 None None)) (ECall "sort" [EVec (mkVS [] 0 0 None None)]))).
+              (EVec (mkVS [] 0 0 None None 0)) (ECall "sort" [EVec (mkVS [] 0 0 None None 0)]))).
 Proof. intros H. apply plan_ok_iff_native in H. vm_compute in H. discriminate. Qed.
